@@ -19,6 +19,12 @@ ASSUMPTIONS = ["tools/kproto.py encodes message sets, gzip members and xerial-fr
 EXHAUSTIVE = False
 
 KNOWN = "C02-wrapper-not-first:"
+FREED = "C02-nested-freed-buffer:"
+# Depth-2 nesting makes the real decoder return views into a buffer it has just freed (MessageSet::from_vec keeps the outer
+# vector and drops the inner one the messages point into). What is exposed then depends on the allocator; with a decompression
+# following in the same reply the bytes of ANOTHER partition show up. Until that is repaired, generated replies carry a nested
+# layout only as their last partition (nothing is decoded after it), which keeps the correspondence runs deterministic.
+NESTED_ANYWHERE = False
 
 
 # ---- layouts ---------------------------------------------------------------------------------------------
@@ -58,6 +64,35 @@ def known_defect_prediction(entries, req):
         if e[0] == "wrap":
             return known_defect_prediction(e[3], req)
     return qualifying(entries, req)
+
+
+def descends_two_levels(entries):
+    """does decoding of this set enter a wrapper inside a wrapper (the situation of the freed-buffer finding)"""
+    for e in entries:
+        if e[0] == "wrap":
+            return has_wrapper(e[3])
+    return False
+
+
+def violation(ex, complete, req):
+    """first clause of the property statement that the exposed list `ex` breaks, or None"""
+    q = qualifying(complete, req)
+    if any(o < req for (o, _, _) in ex):
+        return "a message below the requested offset is exposed (%s)" % [o for (o, _, _) in ex if o < req][:3]
+    stored = set(q)
+    for x in ex:
+        if x not in stored:
+            return "exposed message offset %d key %s value %s is not a complete stored message" % (x[0], x[1][:8].hex(), x[2][:8].hex())
+    if [x[0] for x in ex] != sorted(set(x[0] for x in ex)):
+        return "offsets not in log order: %s" % [x[0] for x in ex][:6]
+    if ex != q[:len(ex)]:
+        return "not a gap-free prefix: exposed offsets %s, complete messages at or above %d are %s" % (
+            [x[0] for x in ex][:6], req, [x[0] for x in q][:6])
+    if not has_wrapper(complete) and ex != q:
+        return "uncompressed set: %d of %d complete messages exposed" % (len(ex), len(q))
+    if not ex and complete and qualifying(complete[:1], req):
+        return "nothing exposed although the first complete batch holds offset %d >= %d" % (qualifying(complete[:1], req)[0][0], req)
+    return None
 
 
 def has_wrapper(entries):
@@ -228,7 +263,13 @@ def fetch_item(parts, rng=None):
     return {"op": T("fetch_messages", [fps]), "mutate": {"kind": "body", "api": "fetch", "body": body}}
 
 
-def scripted_case(rng, jobs, per_fetch=None, nfetch=12):
+def job_descends(job):
+    kind, entries, req, cut, chunk, copies = job
+    data, lens = encode_layout(entries, chunk, copies)
+    return descends_two_levels(complete_entries(entries, lens, cut)[0])
+
+
+def scripted_case(rng, jobs, per_fetch=None):
     """jobs: list of (kind, entries, req, cut, chunk, copies); packed into fetches over a 3x3 single-broker cluster"""
     names = [b"t0", b"t1", b"t2"]
     spec = {"brokers": brokers(1), "topics": {t: [1, 1, 1] for t in names}, "logs": {}}
@@ -237,19 +278,31 @@ def scripted_case(rng, jobs, per_fetch=None, nfetch=12):
     slots = [(t, p) for t in names for p in range(3)]
     i = 0
     while i < len(jobs):
-        n = per_fetch or rng.choice([1, 1, 2, 3, 4, 6, 9])
-        use = rng.sample(slots, min(n, len(jobs) - i))
-        use.sort(key=lambda s: (rng.random() < 0.2, s))
+        n = min(per_fetch or rng.choice([1, 1, 2, 3, 4, 6, 9]), len(jobs) - i)
+        if not NESTED_ANYWHERE:
+            for j in range(n):
+                if job_descends(jobs[i + j]):
+                    n = j + 1                                # the reply ends with the nested layout
+                    break
+        use = rng.sample(slots, n)
+        if rng.random() < 0.8:
+            use[:-1] = sorted(use[:-1])
         parts = []
-        for (t, p), (kind, entries, req, cut, chunk, copies) in zip(use, jobs[i:i + len(use)]):
+        for (t, p), (kind, entries, req, cut, chunk, copies) in zip(use, jobs[i:i + n]):
             flat = kproto.flatten_entries(entries)
             hw = rng.choice([(flat[-1][0] + 1) if flat else req, (flat[-1][0] + 1 + rng.randint(0, 1000)) if flat else req + 5])
             parts.append(part_meta(t, p, kind, entries, req, cut, chunk, copies, hw))
-        # keep the partitions of a topic together in the reply, as a broker does
-        parts.sort(key=lambda md: [u[0] for u in use].index(md[0]["topic"]))
+        # keep the partitions of a topic together in the reply, as a broker does; the last job stays last
+        order = []
+        for (t, _) in use:
+            if t not in order:
+                order.append(t)
+        order.remove(use[-1][0])
+        order.append(use[-1][0])
+        parts.sort(key=lambda md: order.index(md[0]["topic"]))
         ops.append(fetch_item(parts, rng))
         fetches.append([m for m, _ in parts])
-        i += len(use)
+        i += n
     return {"cluster": spec, "ops": ops, "meta": {"nboot": 3, "fetches": fetches}}
 
 
@@ -376,32 +429,23 @@ def check_partition(m, got, fails):
     where = "%s req=%d cut=%s" % (m["kind"], m["req"], m["cut"])
     entries, req = m["entries"], m["req"]
     complete, partial_tail = complete_entries(entries, m["lens"], m["cut"])
-    q = qualifying(complete, req)
     if got[0] != "ok":
         fails.append("C02: %s: partition reported as failed (%s); the reply carries no error code" % (where, got[1]))
         return
     _, hw, ex = got
     if hw != m["hw"]:
         fails.append("C02: %s: high-watermark %d exposed, %d sent" % (where, hw, m["hw"]))
-    bad = []
-    if any(o < req for (o, _, _) in ex):
-        bad.append("a message below the requested offset is exposed (%s)" % [o for (o, _, _) in ex if o < req][:3])
-    stored = set(q)
-    if any(x not in stored for x in ex if x[0] >= req):
-        x = [x for x in ex if x[0] >= req and x not in stored][0]
-        bad.append("exposed message offset %d key %s value %s is not a complete stored message" % (x[0], x[1][:8].hex(), x[2][:8].hex()))
-    if [x[0] for x in ex] != sorted(set(x[0] for x in ex)):
-        bad.append("offsets not in log order: %s" % [x[0] for x in ex][:6])
-    if not bad and ex != q[:len(ex)]:
-        bad.append("not a gap-free prefix: exposed offsets %s, complete messages at or above %d are %s" %
-                   ([x[0] for x in ex][:6], req, [x[0] for x in q][:6]))
-    if not bad and not has_wrapper(complete) and ex != q:
-        bad.append("uncompressed set: %d of %d complete messages exposed" % (len(ex), len(q)))
-    if not bad and not ex and complete and qualifying(complete[:1], req):
-        bad.append("nothing exposed although the first complete batch holds offset %d >= %d" % (qualifying(complete[:1], req)[0][0], req))
+    bad = violation(ex, complete, req)
     if bad:
-        known = in_known_class(complete, req) and ex == known_defect_prediction(complete, req)
-        fails.append("%s %s: %s" % (KNOWN if known else "C02:", where, bad[0]))
+        pred = known_defect_prediction(complete, req)
+        shape = lambda xs: [(o, len(k), len(v)) for (o, k, v) in xs]
+        if in_known_class(complete, req) and ex == pred:
+            cls = KNOWN
+        elif descends_two_levels(complete) and ex != pred and shape(ex) == shape(pred):
+            cls = FREED        # offsets and lengths as decoded, contents are whatever the freed buffer holds now
+        else:
+            cls = "C02:"
+        fails.append("%s %s: %s" % (cls, where, bad))
 
 
 def oracle(case, recs, cl):
@@ -448,7 +492,16 @@ def oracle(case, recs, cl):
         if extra:
             fails.append("C02: result names partitions that were not in the reply: %s" % extra[:3])
     # report each class once, the unknown ones first
-    fails.sort(key=lambda f: f.startswith(KNOWN))
+    fails.sort(key=lambda f: f.startswith(KNOWN) + 2 * f.startswith(FREED))
+    seen, out = set(), []
+    for f in fails:                      # one line per class of known finding, every other failure in full
+        c = f.split()[0]
+        if c in (KNOWN, FREED):
+            if c in seen:
+                continue
+            seen.add(c)
+        out.append(f)
+    fails = out
     return fails[:8]
 
 
@@ -478,8 +531,10 @@ def stats(case, recs):
             bump("via:" + m["via"])
             complete, partial = complete_entries(m["entries"], m["lens"], m["cut"])
             bump("cut:" + ("none" if m["cut"] is None else "partial-tail" if partial else "at-boundary"))
-            if in_known_class(complete, m["req"]) and known_defect_prediction(complete, m["req"]) != qualifying(complete, m["req"]):
-                bump("known_class_layouts_after_cut")
+            if in_known_class(complete, m["req"]) and violation(known_defect_prediction(complete, m["req"]), complete, m["req"]):
+                bump("known_class_violating_layouts")
+            if descends_two_levels(complete):
+                bump("complete_depth2_descents")
             bump("depth:%d" % depth(m["entries"]))
             flat = kproto.flatten_entries(complete)
             if any(o < m["req"] for (o, _, _) in flat):
